@@ -195,7 +195,9 @@ def setup_tunables(component, cname: str, prefix: Optional[str] = "components") 
     tunables: dict[tunable, ntcore.Topic] = {}
 
     for n in dir(cls):
-        if n.startswith("_"):
+        # a tunable is bound whatever its name (a state named "_x" owns the
+        # tunable "_x_duration"); only special attributes are skipped
+        if n.startswith("__"):
             continue
 
         prop = getattr(cls, n)
